@@ -25,6 +25,7 @@ CONSTANTS
     FnRaisesSets,   \* set of subsets of F: candidates for "these functions raise when called"
     FnDefers,       \* [F -> F \cup {0}]: function deferred by a function when it is called (acyclic)
     Times, Deltas, Steps,   \* argument grids of InstallAt / InstallAfter / Run
+    TickSteps,      \* argument grid of Tick (the clock moves while the loop is not running)
     MaxLevel,       \* bound on behaviour length for exhaustive checking
     DropBatchOnRaise \* named deviation (finding F8): a raising deferred function ends the pass and the
                      \* rest of its batch is lost.  FALSE = the intended design (and the repaired code).
@@ -150,7 +151,14 @@ Run(d) ==
         /\ act' = [op |-> "run", k |-> 0, a |-> d]
         /\ UNCHANGED <<TaskRaises, FnRaises>>
 
+\* the clock moves on without a pass of the loop (it is waiting in select, another thread is about to install a timer):
+\* what is installed afterwards is relative to the clock as it is then
+Tick(d) ==
+    /\ now' = now + d
+    /\ act' = [op |-> "tick", k |-> 0, a |-> d] /\ Quiet /\ UNCHANGED <<q, sched, due, instAt, defq, submitted>>
+
 Next ==
+    \/ \E d \in TickSteps : Tick(d)
     \/ \E k \in K, t \in Times : InstallAt(k, t)
     \/ \E k \in K, d \in Deltas : InstallAfter(k, d)
     \/ \E k \in K : InstallRec(k) \/ Suspend(k) \/ Resume(k)
